@@ -66,7 +66,7 @@ def check_items(ctx, scs, label, chunk=1500):
                 o = got
                 e = want
             else:
-                base = {("immutable", ())} if site in ("fieldDocImm", "embeddedDocImm", "fieldLineImm") else set()
+                base = {("immutable", ())} if site in ("fieldDocImm", "fieldDocImmMulti", "embeddedDocImm", "fieldLineImm") else set()
                 e = base | ({exp} if exp else set())
                 o = obs.get(name, set())
                 ok = o == e
